@@ -5,6 +5,7 @@ import (
 	"go/ast"
 	"go/token"
 	"go/types"
+	"golang.org/x/tools/go/ssa"
 	"strings"
 )
 
@@ -13,12 +14,12 @@ func init() {
 }
 
 func checkC15(r *Run) {
-	r.Rule("R1", "every parser error message is built by a format that starts with 'line %d:' and is fed from a token's LineNumber", 6)
+	r.Rule("R1", "every parser error message is built by a format that starts with 'line %d:' and is fed from a token's LineNumber", 1)
 	r.Rule("R2", "the top-level evaluator has exactly one error exit and it is fmt.Errorf(\"line %d: %w\", <statement>.T().LineNumber, err)", 1)
-	r.Rule("R3", "the statement whose line is reported belongs to the tag being executed: the current-statement slot is reset for every top-level statement and written otherwise only on entry of the in-block statement evaluator", 2)
-	r.Rule("R4", "every token leaves the lexer with LineNumber assigned, on every path of both token functions", 30)
-	r.Rule("R5", "the line is a function of the consumed newlines: only readChar moves the cursor and bumps the line (under ch == '\\n' of the byte just consumed); the scanner reads input only relative to the cursor", 4)
-	r.Rule("R6", "every statement node is stamped with the token that is current BEFORE its expression is parsed (the first token of the statement)", 4)
+	r.Rule("R3", "the statement whose line is reported belongs to the tag being executed: the current-statement slot is reset for every top-level statement and written otherwise only on entry of the in-block statement evaluator", 1)
+	r.Rule("R4", "every token leaves the lexer with LineNumber assigned, on every path of both token functions", 10)
+	r.Rule("R5", "the line is a function of the consumed newlines: only readChar moves the cursor and bumps the line (under ch == '\\n' of the byte just consumed); the scanner reads input only relative to the cursor", 1)
+	r.Rule("R6", "every statement node is stamped with the token that is current BEFORE its expression is parsed (the first token of the statement)", 1)
 	r.Rule("R7", "the recorded syntax errors reach the caller in recording order: nothing on the way sorts the message list (a string sort of 'line N:' prefixes is not shift invariant)", 1)
 	parserMessagesRule(r, "R1")
 	coreTopLevelRules(r, "", "R2")
@@ -342,86 +343,108 @@ func evaluatorExitRule(r *Run, rule string) {
 func curStmtRule(r *Run, rule string) {
 	w := r.W
 	cur := w.compilerField("curStmt")
-	top := w.topLevelEval()
-	stmtEval := w.inBlockStmtEval()
-	if cur == nil || top == nil || stmtEval == nil {
+	m := w.coreModel()
+	if cur == nil || m.top == nil || m.stmt == nil || m.curStmtIdx < 0 {
 		r.Lost(rule, "current-statement field / top-level evaluator / statement evaluator")
 		return
 	}
-	info := w.Pkgs[""].TypesInfo
-	for _, f := range w.Funcs("") {
-		ast.Inspect(f.Decl.Body, func(n ast.Node) bool {
-			as, ok := n.(*ast.AssignStmt)
-			if !ok {
-				return true
-			}
-			for i, l := range as.Lhs {
-				if _, fld := fieldOf(info, l); fld != cur {
-					continue
-				}
-				con := "store " + short(w.Fset, as)
-				switch {
-				case f.Obj == stmtEval.Obj:
-					// first statement of the function, storing the node parameter
-					node := f.Obj.Type().(*types.Signature).Params().At(0)
-					if f.Decl.Body.List[0] == ast.Stmt(as) && i < len(as.Rhs) && objOf(info, as.Rhs[i]) == node {
-						r.Ok(rule, f.Name(), con, w.Pos(as.Pos()), "recorded on entry of every in-block statement")
-					} else {
-						r.Bad(rule, f.Name(), con, w.Pos(as.Pos()), "the in-block statement evaluator must record its own node, first thing")
-					}
-				case f.Obj == top.Obj:
-					// inside the range loop over the program's statements, at the top level of the body,
-					// before the first evaluation call
-					okPos := false
-					if blk, isBlk := w.Parent(as).(*ast.BlockStmt); isBlk {
-						if rs, isRange := w.Parent(blk).(*ast.RangeStmt); isRange && rs.Body == blk {
-							okPos = true
-							for _, st := range blk.List {
-								if st == ast.Stmt(as) {
-									break
-								}
-								for _, c := range callsIn(st, false) {
-									if cal := calleeOf(info, c); cal != nil && isMethodOf(w.FuncOf(cal), w.compilerType()) {
-										okPos = false
-									}
-								}
-							}
-						}
-					}
-					val := ""
-					if i < len(as.Rhs) {
-						val = short(w.Fset, as.Rhs[i])
-					}
-					if okPos && (val == "nil" || isRangeValueOf(info, w, as, as.Rhs[i])) {
-						r.Ok(rule, f.Name(), con, w.Pos(as.Pos()), "reset for every top-level statement before it is evaluated")
-					} else {
-						r.Bad(rule, f.Name(), con, w.Pos(as.Pos()), "the slot must be reset (nil or the statement itself) at the start of every iteration of the top-level loop")
-					}
-				default:
-					r.Bad(rule, f.Name(), con, w.Pos(as.Pos()),
-						"the current-statement slot is written outside the two licensed places: restoring or overwriting it loses the record of the statement that failed, and the error names another line")
-				}
-			}
-			return true
-		})
+	isSlotStore := func(ins ssa.Instruction) (*ssa.Store, bool) {
+		st, ok := ins.(*ssa.Store)
+		if !ok {
+			return nil, false
+		}
+		fa, ok := st.Addr.(*ssa.FieldAddr)
+		return st, ok && fa.Field == m.curStmtIdx && w.isCompilerValue(fa.X)
 	}
-	// the reset must exist
-	found := false
-	inspectBody(top.Decl.Body, false, func(n ast.Node) bool {
-		if as, ok := n.(*ast.AssignStmt); ok {
-			for _, l := range as.Lhs {
-				if _, fld := fieldOf(info, l); fld == cur {
-					found = true
+	// (1) top level: on every iteration path the slot is reset (nil, or the statement of this iteration)
+	// before any evaluator runs
+	paths, ok := walkPathsUnrolled(m.top, nil, m.inline, 20000)
+	if !ok {
+		r.Lost(rule, "paths of the top-level evaluator")
+		return
+	}
+	nIter, okReset := 0, true
+	var resetPos token.Pos = m.top.Pos()
+	licensed := map[*ssa.Function]bool{m.top: true, m.stmt: true}
+	for _, p := range paths {
+		firstEval, reset := -1, -1
+		for i, ev := range p.events {
+			if st, isStore := isSlotStore(ev); isStore {
+				if reset < 0 {
+					reset = i
+					resetPos = st.Pos()
+					v := p.resolve(st.Val)
+					isNil := isNilConst(v) || isNilConst(p.resolve(stripIface(v)))
+					isElem := false
+					if ld, ok := v.(*ssa.UnOp); ok && ld.Op == token.MUL {
+						_, isElem = ld.X.(*ssa.IndexAddr)
+					}
+					if !isNil && !isElem {
+						okReset = false
+					}
+				}
+				licensed[st.Parent()] = true
+			}
+			if c, isCall := ev.(*ssa.Call); isCall && firstEval < 0 {
+				if cal := c.Call.StaticCallee(); cal != nil && m.canonicalSet()[cal] && cal != m.sink {
+					firstEval = i
 				}
 			}
 		}
-		return true
-	})
-	if !found {
-		r.Bad(rule, top.Name(), "no reset of the current-statement slot", w.Pos(top.Decl.Pos()),
+		if firstEval < 0 {
+			continue
+		}
+		nIter++
+		if reset < 0 || reset > firstEval {
+			okReset = false
+		}
+	}
+	switch {
+	case nIter == 0:
+		r.Lost(rule, "iterations of the top-level loop")
+	case okReset:
+		r.Ok(rule, ssaName(m.top), "slot reset for every top-level statement", w.Pos(resetPos), "on every iteration path the slot is set to nil (or the statement itself) before any evaluator runs")
+	default:
+		r.Bad(rule, ssaName(m.top), "no reset of the current-statement slot", w.Pos(resetPos),
 			"the slot keeps the inner statement of an EARLIER tag: a later top-level error is reported on that earlier line")
 	}
-	// the error exit must prefer the slot and fall back to the loop's statement
+	// (2) the in-block statement evaluator records its own node, first thing
+	okEntry := false
+	if len(m.stmt.Blocks) > 0 {
+		for _, ins := range m.stmt.Blocks[0].Instrs {
+			if _, isCall := ins.(*ssa.Call); isCall {
+				break
+			}
+			if st, isStore := isSlotStore(ins); isStore && len(m.stmt.Params) == 2 && st.Val == ssa.Value(m.stmt.Params[1]) {
+				okEntry = true
+			}
+		}
+	}
+	if okEntry {
+		r.Ok(rule, ssaName(m.stmt), "recorded on entry of every in-block statement", w.Pos(m.stmt.Pos()), "the node parameter is stored before anything is evaluated")
+	} else {
+		r.Bad(rule, ssaName(m.stmt), "in-block statement is not recorded on entry", w.Pos(m.stmt.Pos()), "the in-block statement evaluator must record its own node, first thing")
+	}
+	// (3) nobody else writes the slot
+	for _, f := range w.Funcs("") {
+		fn := w.SSAFunc(f)
+		if fn == nil {
+			continue
+		}
+		for _, g := range append([]*ssa.Function{fn}, allAnon(fn)...) {
+			if licensed[g] {
+				continue
+			}
+			for _, b := range g.Blocks {
+				for _, ins := range b.Instrs {
+					if st, isStore := isSlotStore(ins); isStore {
+						r.Bad(rule, ssaName(g), "store to the current-statement slot", w.Pos(st.Pos()),
+							"the current-statement slot is written outside the two licensed places: restoring or overwriting it loses the record of the statement that failed, and the error names another line")
+					}
+				}
+			}
+		}
+	}
 }
 
 func isRangeValueOf(info *types.Info, w *World, n ast.Node, e ast.Expr) bool {
